@@ -15,16 +15,16 @@ import (
 // Case is one generated case with what the implementation did.
 type Case struct {
 	ID      int      `json:"id"`
-	Kind    string   `json:"kind,omitempty"`   // generator stream / cell
-	Text    []string `json:"text"`             // human-readable ops + observations
-	Coq     string   `json:"coq"`              // Coq term: (input, observed)
-	Oracle  string   `json:"oracle"`           // "" = property held on impl; otherwise what failed (first failure)
-	Sig     string   `json:"sig,omitempty"`    // signature of the first failure (for known findings)
-	Fails   []Fail   `json:"fails,omitempty"`  // every failure found in this case (first one = Oracle/Sig)
-	Cells   []string `json:"cells,omitempty"`  // coverage cells hit (op/outcome classes)
+	Kind    string   `json:"kind,omitempty"`  // generator stream / cell
+	Text    []string `json:"text"`            // human-readable ops + observations
+	Coq     string   `json:"coq"`             // Coq term: (input, observed)
+	Oracle  string   `json:"oracle"`          // "" = property held on impl; otherwise what failed (first failure)
+	Sig     string   `json:"sig,omitempty"`   // signature of the first failure (for known findings)
+	Fails   []Fail   `json:"fails,omitempty"` // every failure found in this case (first one = Oracle/Sig)
+	Cells   []string `json:"cells,omitempty"` // coverage cells hit (op/outcome classes)
 	Trivial bool     `json:"trivial,omitempty"`
-	CType   string   `json:"ctype,omitempty"`  // Coq type of the case term, when not the property's default
-	Check   string   `json:"check,omitempty"`  // Coq check function, when not the property's default
+	CType   string   `json:"ctype,omitempty"` // Coq type of the case term, when not the property's default
+	Check   string   `json:"check,omitempty"` // Coq check function, when not the property's default
 }
 
 // Fail is one property failure observed on the implementation.
